@@ -88,8 +88,10 @@ class Arena:
             stack.pop()
         return self._shash[i]
 
-    def definitions(self, ids):
-        """SMT-LIB declarations/definitions for the given (cone-closed, sorted) node ids."""
+    def definitions(self, ids, constraints=None):
+        """SMT-LIB declarations/definitions for the given (cone-closed, sorted) node ids.  If `constraints`
+        is a dict, the defining assertions of sqrt nodes are put there (node id -> lines) instead of into
+        the output, so that a query only carries the constraints of the nodes in its own cone."""
         out = []
         funs = {}
         for i in ids:
@@ -102,8 +104,11 @@ class Arena:
             elif k == "sqrt":
                 x = self.name(n[1])
                 out.append(f"(declare-const sqrt_{i} Real)")
-                out.append(f"(assert (>= sqrt_{i} 0.0))")
-                out.append(f"(assert (= (* sqrt_{i} sqrt_{i}) {x}))")
+                cons = [f"(assert (>= sqrt_{i} 0.0))", f"(assert (= (* sqrt_{i} sqrt_{i}) {x}))"]
+                if constraints is None:
+                    out += cons
+                else:
+                    constraints[i] = cons
             elif k == "f":
                 fname = "uf_" + re.sub(r"\W", "_", n[1]) + f"_{len(n[2])}"
                 if fname not in funs:
@@ -167,32 +172,71 @@ SOLVER_CONFIGS = [
 ]
 
 
-def solve_text(base_lines, goal_lines, timeout_s, configs=None, uf=False, stats=None):
-    """Run the portfolio sequentially on one query until a definite answer.  Returns Verdict."""
+def _run_one(label, argv, check, base_lines, goal_lines, timeout_s, stats, procs=None):
+    head = ["(set-logic ALL)"] if label.startswith("cvc5") else []
+    text = "\n".join(head + base_lines + goal_lines + [check, "(exit)"]) + "\n"
+    t0 = uptime()
+    try:
+        p = subprocess.Popen(argv(timeout_s), stdin=subprocess.PIPE, stdout=subprocess.PIPE, stderr=subprocess.STDOUT, text=True)
+        if procs is not None:
+            procs.append(p)
+        out, _ = p.communicate(text, timeout=timeout_s + 10)
+        ans = _parse_answer(out)
+    except subprocess.TimeoutExpired:
+        p.kill()
+        ans = "unknown"
+    except (FileNotFoundError, BrokenPipeError, OSError):
+        ans = "unknown"
+    dt = uptime() - t0
+    if stats is not None:
+        stats["queries"] = stats.get("queries", 0) + 1
+        stats["solver_s"] = stats.get("solver_s", 0.0) + dt
+        stats.setdefault("by_solver", {}).setdefault(label, [0, 0.0])
+        stats["by_solver"][label][0] += 1
+        stats["by_solver"][label][1] += dt
+    return Verdict(ans, label, dt)
+
+
+def solve_variants(variants, timeout_s, configs=None, uf=False, stats=None):
+    """variants: list of (label, base_lines, goal_lines) -- alternative encodings of the same query.
+    Stage 1: z3 4.8.12 with a short cap on each variant in turn.  Stage 2: all remaining
+    (variant x configuration) pairs race in parallel with the full cap; first definite answer wins."""
+    from concurrent.futures import ThreadPoolExecutor, as_completed
+    cfgs = [c for c in (configs or SOLVER_CONFIGS) if not (uf and "nlsat" in c[0])]
     verdicts = []
-    for label, argv, check in (configs or SOLVER_CONFIGS):
-        if uf and "nlsat" in label:
-            continue
-        head = ["(set-logic ALL)"] if label.startswith("cvc5") else []
-        text = "\n".join(head + base_lines + goal_lines + [check, "(exit)"]) + "\n"
-        t0 = uptime()
-        try:
-            p = subprocess.run(argv(timeout_s), input=text, text=True, capture_output=True, timeout=timeout_s + 10)
-            ans = _parse_answer(p.stdout + p.stderr)
-        except (subprocess.TimeoutExpired, FileNotFoundError) as e:
-            ans = "unknown"
-        dt = uptime() - t0
-        if stats is not None:
-            stats["queries"] = stats.get("queries", 0) + 1
-            stats["solver_s"] = stats.get("solver_s", 0.0) + dt
-            stats.setdefault("by_solver", {}).setdefault(label, [0, 0.0])
-            stats["by_solver"][label][0] += 1
-            stats["by_solver"][label][1] += dt
-        v = Verdict(ans, label, dt)
+    first = cfgs[0]
+    for (vl, base, goal) in variants:
+        v = _run_one(first[0] + ":" + vl, first[1], first[2], base, goal, min(3, timeout_s), stats)
         verdicts.append(v)
-        if ans in ("sat", "unsat"):
+        if v.result in ("sat", "unsat"):
             return v, verdicts
-    return Verdict("unknown", "portfolio", sum(v.secs for v in verdicts), ";".join(map(repr, verdicts))), verdicts
+    jobs = []
+    for (vl, base, goal) in variants:
+        for c in (cfgs[1:] + ([first] if timeout_s > 3 else [])):
+            jobs.append((c[0] + ":" + vl, c[1], c[2], base, goal))
+    if not jobs:
+        return Verdict("unknown", "portfolio", sum(v.secs for v in verdicts), ";".join(map(repr, verdicts))), verdicts
+    procs = []
+    winner = None
+    with ThreadPoolExecutor(max_workers=len(jobs)) as ex:
+        futs = [ex.submit(_run_one, j[0], j[1], j[2], j[3], j[4], timeout_s, stats, procs) for j in jobs]
+        for f in as_completed(futs):
+            r = f.result()
+            verdicts.append(r)
+            if r.result in ("sat", "unsat") and winner is None:
+                winner = r
+                for p in procs:
+                    try:
+                        p.kill()
+                    except Exception:
+                        pass
+    if winner:
+        return winner, verdicts
+    return Verdict("unknown", "portfolio", max(v.secs for v in verdicts), ";".join(map(repr, verdicts[:4]))), verdicts
+
+
+def solve_text(base_lines, goal_lines, timeout_s, configs=None, uf=False, stats=None):
+    return solve_variants([("plain", base_lines, goal_lines)], timeout_s, configs=configs, uf=uf, stats=stats)
 
 
 class Incremental:
@@ -310,3 +354,146 @@ def parse_get_value(text):
             if v is not None:
                 res[item[0]] = v
     return res
+
+
+# ---------------------------------------------------------------------------------------------
+# fraction-free encoding: every node is (numerator term, denominator monomial over atoms)
+# ---------------------------------------------------------------------------------------------
+class FF:
+    """Fraction-free view of an Arena: node i = num_i / mono(den_i), where den_i is a multiset of atoms
+    (numerator terms of divisors).  Equalities become polynomial identities; every atom is asserted
+    non-zero (the divisor-non-zero obligations are discharged separately in the plain encoding)."""
+
+    def __init__(self, arena, ids):
+        self.a = arena
+        self.ids = ids
+        self.num = {}      # node id -> smt term (name)
+        self.den = {}      # node id -> dict atom -> exponent
+        self.lines = []
+        self.atoms = set()
+        self.constraints = {}   # node id -> defining assertions (sqrt definitions, divisor atoms non-zero)
+        self._build()
+
+    @staticmethod
+    def _mono(d):
+        fs = []
+        for atom, e in sorted(d.items()):
+            fs += [atom] * e
+        if not fs:
+            return None
+        return fs[0] if len(fs) == 1 else "(* " + " ".join(fs) + ")"
+
+    @staticmethod
+    def _lcm(d1, d2):
+        out = dict(d1)
+        for k, e in d2.items():
+            out[k] = max(out.get(k, 0), e)
+        return out
+
+    @staticmethod
+    def _quot(big, small):
+        out = {}
+        for k, e in big.items():
+            r = e - small.get(k, 0)
+            if r > 0:
+                out[k] = r
+        return out
+
+    def _times(self, term, mono):
+        m = self._mono(mono)
+        return term if m is None else f"(* {term} {m})"
+
+    def plain(self, i):
+        """the value of node i as an ordinary term (with division)"""
+        m = self._mono(self.den[i])
+        return self.num[i] if m is None else f"(/ {self.num[i]} {m})"
+
+    def _build(self):
+        A = self.a
+        funs = {}
+        L = self.lines
+        for i in self.ids:
+            n = A.nodes[i]
+            k = n[0]
+            if k == "c":
+                self.num[i], self.den[i] = q_smt(n[1]), {}
+            elif k == "v":
+                L.append(f"(declare-const {A.name(i)} Real)")
+                self.num[i], self.den[i] = A.name(i), {}
+            elif k == "sqrt":
+                x = n[1]
+                L.append(f"(declare-const sqrt_{i} Real)")
+                cons = [f"(assert (>= sqrt_{i} 0.0))"]
+                m = self._mono(self.den[x])
+                lhs = f"(* sqrt_{i} sqrt_{i})" if m is None else f"(* sqrt_{i} sqrt_{i} {m})"
+                cons.append(f"(assert (= {lhs} {self.num[x]}))")
+                if m is not None:
+                    # sqrt(n/d) is only meaningful for n/d >= 0
+                    cons.append(f"(assert (>= (* {self.num[x]} {m}) 0.0))")
+                self.constraints[i] = cons
+                self.num[i], self.den[i] = f"sqrt_{i}", {}
+            elif k == "f":
+                fname = "uf_" + re.sub(r"\W", "_", n[1]) + f"_{len(n[2])}"
+                if fname not in funs:
+                    funs[fname] = 1
+                    L.append(f"(declare-fun {fname} ({' '.join(['Real'] * len(n[2]))}) Real)")
+                args = " ".join(self.plain(a) for a in n[2])
+                L.append(f"(define-fun ff_{i} () Real {('(' + fname + ' ' + args + ')') if n[2] else fname})")
+                self.num[i], self.den[i] = f"ff_{i}", {}
+            elif k in ("+", "-"):
+                x, y = n[1], n[2]
+                lcm = self._lcm(self.den[x], self.den[y])
+                tx = self._times(self.num[x], self._quot(lcm, self.den[x]))
+                ty = self._times(self.num[y], self._quot(lcm, self.den[y]))
+                L.append(f"(define-fun ff_{i} () Real ({k} {tx} {ty}))")
+                self.num[i], self.den[i] = f"ff_{i}", lcm
+            elif k == "*":
+                x, y = n[1], n[2]
+                d = dict(self.den[x])
+                for kk, e in self.den[y].items():
+                    d[kk] = d.get(kk, 0) + e
+                L.append(f"(define-fun ff_{i} () Real (* {self.num[x]} {self.num[y]}))")
+                self.num[i], self.den[i] = f"ff_{i}", d
+            elif k == "/":
+                x, y = n[1], n[2]
+                d = dict(self.den[x])
+                if A.nodes[y][0] == "c":
+                    L.append(f"(define-fun ff_{i} () Real (/ {self._times(self.num[x], self.den[y])} {self.num[y]}))")
+                else:
+                    atom = self.num[y]
+                    self.atoms.add(atom)
+                    self.constraints.setdefault(i, []).append(f"(assert (not (= {atom} 0.0)))")
+                    d[atom] = d.get(atom, 0) + 1
+                    L.append(f"(define-fun ff_{i} () Real {self._times(self.num[x], self.den[y])})")
+                self.num[i], self.den[i] = f"ff_{i}", d
+            elif k == "neg":
+                L.append(f"(define-fun ff_{i} () Real (- {self.num[n[1]]}))")
+                self.num[i], self.den[i] = f"ff_{i}", dict(self.den[n[1]])
+            elif k == "abs":
+                x = self.plain(n[1])
+                L.append(f"(define-fun ff_{i} () Real (ite (>= {x} 0.0) {x} (- {x})))")
+                self.num[i], self.den[i] = f"ff_{i}", {}
+            else:
+                raise ToolFailure(f"unknown node kind {k}")
+
+    def constraints_for(self, cone_ids):
+        out = []
+        seen = set()
+        for i in cone_ids:
+            for l in self.constraints.get(i, []):
+                if l not in seen:
+                    seen.add(l)
+                    out.append(l)
+        return out
+
+    def rel(self, a, op, b, outcome=True):
+        if op in ("=", "!="):
+            lcm = self._lcm(self.den[a], self.den[b])
+            x = self._times(self.num[a], self._quot(lcm, self.den[a]))
+            y = self._times(self.num[b], self._quot(lcm, self.den[b]))
+            e = f"(= {x} {y})"
+            if op == "!=":
+                e = f"(not {e})"
+        else:
+            e = f"({op} {self.plain(a)} {self.plain(b)})"
+        return e if outcome else f"(not {e})"
